@@ -47,7 +47,7 @@ LEVEL_TEXT = ("Lean 4 theorems for all label lists (all item sequences, sizes, f
               "error; values = in-order prefix of successfully sent receivable items; complete at quiescence; end-of-stream only "
               "after all data; mpsc per-sender prefix against arbitrary other senders, queued-but-untransmitted values form a suffix; "
               "oneshot at most one. The clauses 'failed/cancelled send is never delivered' need the repaired receiver (strictEnd): "
-              "the pinned tree violates them (finding FB1, kernel-checked witnesses, reproduced by the harness).")
+              "the snapshot violated them (defect FB1, kernel-checked witnesses for the pre-repair variant; repaired in /repo a9d1262, and the check reports a violation if the repair is reverted).")
 LEVEL_NOTE = ("Trusted: Lean kernel + {propext, Quot.sound}; the hand-written models and the abstract port (C01/C11); harness/driver. "
               "Partial w.r.t. the property text: byte fidelity of the codec is covered only by the differential.")
 TECHNIQUE = "Lean 4 invariant proofs over LTS models + replay and predicate check of real channel runs"
